@@ -23,7 +23,7 @@ import subprocess
 import sys
 import zlib
 
-from rtc.gen import Graph, Seg, make_rgfa, gaf_record, parse_path, write_lines, colon_contigs
+from rtc.gen import Graph, Seg, make_rgfa, gaf_record, parse_path, write_lines, colon_contigs, rename_ids
 
 BGZF_BLOCK = 65280  # payload bytes per block written by bgzf_write
 
@@ -49,6 +49,8 @@ def random_graph(rng, hap_mode=None, cyclic=None, n_chrom=None, max_len=3):
                 g = Graph(g.segs, list(g.links) + [(refs[j].id, "+", refs[i].id, "+", 0, ())])
     if rng.random() < 0.2:
         g = colon_contigs(g)  # contig names containing ':' (F18)
+    if rng.random() < 0.2:
+        g = rename_ids(g, rng.choice(["dash", "dot", "hash"]))  # segment names with punctuation (after seeded change C01-5)
     return g
 
 
